@@ -32,6 +32,9 @@ func init() {
 			"(R11.3) the media type chosen per element is the documented default (script → application/javascript, style → text/css, iframe → text/html, svg → image/svg+xml, math → application/mathml+xml; SVG style → text/css), overridden only by the element's own type attribute. Not covered: re-escaping for the host syntax (byte-level).",
 		Run: runC11,
 	})
+	mutant(&Mutant{Name: "c11-svg-style-type-becomes-document-default", Property: "C11", File: "svg/svg.go",
+		Old: "\t\t\tif tag == Svg && attr == ContentStyleType {\n", New: "\t\t\tif tag == Svg && attr == ContentStyleType || tag == Style && attr == Type {\n",
+		Rule: "R11.3", Construct: "svg"})
 	mutant(&Mutant{Name: "c11-math-error-swallowed", Property: "C11", File: "html/html.go",
 		Old:  "\t\t\tif err := m.MinifyMimetype(mathMimeBytes, w, buffer.NewReader(t.Data), nil); err != nil {\n\t\t\t\tif err != minify.ErrNotExist {\n\t\t\t\t\treturn minify.UpdateErrorPosition(err, z, t.Offset)\n\t\t\t\t}\n\t\t\t\tw.Write(t.Data)\n\t\t\t}\n",
 		New:  "\t\t\tif err := m.MinifyMimetype(mathMimeBytes, w, buffer.NewReader(t.Data), nil); err != nil {\n\t\t\t\tw.Write(t.Data)\n\t\t\t}\n",
@@ -686,8 +689,23 @@ func (c *Ctx) checkMediaType(rule string, s *embedSite) {
 		}
 		val, okv := evalBytes(rhs)
 		if !okv {
-			// svg: defaultStyleType = val (contentStyleType attribute) is an element-provided override
+			// svg: defaultStyleType = val is the document-wide override by the root element's contentStyleType
+			// attribute; any other element changing it would leak its own type into the rest of the document
 			if s.pk.Name == "svg" {
+				root, cst := false, false
+				for _, f := range s.g.DomFacts(y) {
+					if f.Value && f.Test.Kind == flow.KCond {
+						switch nospace(str(f.Test.Expr)) {
+						case "tag==Svg":
+							root = true
+						case "attr==ContentStyleType":
+							cst = true
+						}
+					}
+				}
+				if !root || !cst {
+					bad = append(bad, "the document-wide style type is overwritten at "+c.pos(y.Stmt)+" outside the test tag == Svg && attr == ContentStyleType: the type of one element leaks into every later style attribute and style element")
+				}
 				continue
 			}
 			bad = append(bad, "cannot evaluate "+str(rhs))
